@@ -51,7 +51,7 @@ theorem no_free_marker {c : Cfg} {s : BState} (hK : BInvK c s) (h : BInvR c s) {
 
 set_option hygiene false in
 macro "br_post" : tactic => `(tactic| (
-  all_goals (constructor <;> first | assumption | (simp only [upd, upd2, lockS, unlockS, newHelper, relocate] at * <;> grind [upd, upd2, BPc.bar, BPc.past, BPc.locked, Loc.invoked, → past_bar, → locked_bar, cntU_other, cntU_same, cntU_false, cntU_notin, cntU_pos, cntU_nonneg, → mem_of_head?]))))
+  all_goals (constructor <;> first | assumption | (simp only [upd, upd2, lockS, unlockS, newHelper, relocate, nestOn, csOn, nestOff, nestOn, csOn, nestOff] at * <;> grind [upd, upd2, BPc.bar, BPc.past, BPc.locked, Loc.invoked, → past_bar, → locked_bar, cntU_other, cntU_same, cntU_false, cntU_notin, cntU_pos, cntU_nonneg, → mem_of_head?]))))
 
 set_option hygiene false in
 macro "br_pre" : tactic => `(tactic| (
